@@ -196,8 +196,8 @@ def _fold_constant_tests(stmts):
             b = getattr(st, fld, None)
             if isinstance(b, list) and b and isinstance(b[0], ast.stmt):
                 setattr(st, fld, _fold_constant_tests(b) or [ast.Pass()] if fld == "body" else _fold_constant_tests(b))
-        if isinstance(st, ast.If) and isinstance(st.test, ast.Constant) and isinstance(st.test.value, (bool, type(None), int)):
-            out.extend(st.body if st.test.value else st.orelse)
+        if isinstance(st, ast.If) and _const_truth(st.test) is not None:
+            out.extend(st.body if _const_truth(st.test) else st.orelse)
             continue
         if isinstance(st, ast.If) and isinstance(st.test, ast.UnaryOp) and isinstance(st.test.op, ast.Not) and isinstance(st.test.operand, ast.Constant):
             out.extend(st.orelse if st.test.operand.value else st.body)
@@ -206,11 +206,26 @@ def _fold_constant_tests(stmts):
     return out
 
 
+def _const_truth(t) -> Optional[bool]:
+    """truth of a test made of constants only: a constant, `not <const>`, `<const> is [not] None`"""
+    if isinstance(t, ast.Constant) and isinstance(t.value, (bool, type(None), int, float, str)):
+        return bool(t.value)
+    if isinstance(t, ast.UnaryOp) and isinstance(t.op, ast.Not):
+        v = _const_truth(t.operand)
+        return None if v is None else not v
+    if isinstance(t, ast.Compare) and len(t.ops) == 1 and isinstance(t.ops[0], (ast.Is, ast.IsNot)) and isinstance(t.left, ast.Constant) \
+            and isinstance(t.comparators[0], ast.Constant) and (t.left.value is None or t.comparators[0].value is None):
+        same = t.left.value is None and t.comparators[0].value is None
+        return same if isinstance(t.ops[0], ast.Is) else not same
+    return None
+
+
 class _FoldIfExp(ast.NodeTransformer):
     def visit_IfExp(self, node):
         self.generic_visit(node)
-        if isinstance(node.test, ast.Constant) and isinstance(node.test.value, (bool, type(None))):
-            return node.body if node.test.value else node.orelse
+        tv = _const_truth(node.test)
+        if tv is not None:
+            return node.body if tv else node.orelse
         return node
 
 
@@ -999,11 +1014,57 @@ def _expand_star_tuples(tree: ast.Module) -> int:
     return done
 
 
+def _fold_known_not_none(tree: ast.Module) -> int:
+    """`x is None` / `x is not None` where x is a local bound exactly once, to a value that cannot be None (a tensor constructor, an
+    arithmetic expression, a display, a non-None constant), and the test comes after the binding: folded to False / True, and conditionals
+    on the folded constant are resolved.  (Typical after inlining a helper with an optional argument at a call site that passes a tensor.)"""
+    n = 0
+    for fn in [x for x in ast.walk(tree) if isinstance(x, _FUNCS)]:
+        binds: Dict[str, List[ast.AST]] = {}
+        params = {a.arg for a in ast.walk(fn.args) if isinstance(a, ast.arg)}
+        for x in _own_walk(fn):
+            if isinstance(x, ast.Name) and isinstance(x.ctx, (ast.Store, ast.Del)):
+                binds.setdefault(x.id, []).append(x)
+        known = {}
+        for st in fn.body:
+            if isinstance(st, ast.Assign) and len(st.targets) == 1 and isinstance(st.targets[0], ast.Name):
+                nm = st.targets[0].id
+                v = st.value
+                notnone = (isinstance(v, ast.Call) and ast.unparse(v.func) in ("torch.tensor", "torch.zeros", "torch.ones", "torch.empty", "torch.eye", "torch.arange", "torch.linspace", "torch.full")) \
+                    or isinstance(v, (ast.BinOp, ast.Tuple, ast.List, ast.Dict)) or (isinstance(v, ast.Constant) and v.value is not None)
+                if notnone and len(binds.get(nm, [])) == 1 and nm not in params:
+                    known[nm] = st.lineno
+
+        class F(ast.NodeTransformer):
+            def visit_FunctionDef(self, node):
+                return node if node is not fn else self.generic_visit(node)
+            visit_AsyncFunctionDef = visit_FunctionDef
+            visit_Lambda = lambda self, node: node
+
+            def visit_Compare(self, node):
+                self.generic_visit(node)
+                if len(node.ops) == 1 and isinstance(node.ops[0], (ast.Is, ast.IsNot)) and isinstance(node.left, ast.Name) and node.left.id in known \
+                        and isinstance(node.comparators[0], ast.Constant) and node.comparators[0].value is None and getattr(node, "lineno", 0) > known[node.left.id]:
+                    nonlocal n
+                    n += 1
+                    return ast.copy_location(ast.Constant(value=isinstance(node.ops[0], ast.IsNot)), node)
+                return node
+        if known:
+            F().visit(fn)
+            _FoldIfExp().visit(fn)
+            fn.body = _fold_constant_tests(fn.body) or [ast.Pass()]
+    if n:
+        ast.fix_missing_locations(tree)
+    return n
+
+
 def inline_new_helpers(tree: ast.Module, known_functions: Set[str], ref_locals: Optional[Dict[str, Set[str]]] = None) -> List[Tuple[str, str]]:
     _expand_star_tuples(tree)
     inl = Inliner(tree, known_functions)
     inl.run()
     if _inline_local_predicates(tree, ref_locals):
         inl.inlined.append(("<local>", "<predicate>"))
+    if inl.inlined:
+        _fold_known_not_none(tree)
     ast.fix_missing_locations(tree)
     return inl.inlined
